@@ -389,6 +389,13 @@ func init() {
 		ctx.Res.Rule = "case = either (root options, shard count, reporter flavour, sanitizer, a history of SubScope/Tagged/metric calls built from programs that permute, regroup, override and re-apply the same tag assignments) or (prefix, map) inputs of the public key functions; generated from the seed; non-trivial = at least two calls (two bindings for key cases); distinct by hash of the case"
 		one := func(c *dCase) { derivOne(ctx, c, "C05") }
 		if ctx.Replay != nil {
+			var rp struct {
+				Progs []json.RawMessage `json:"progs"`
+			}
+			if json.Unmarshal(ctx.Replay, &rp) == nil && len(rp.Progs) > 0 {
+				regReplay(ctx, "equal_identities_share_one_scope_distinct_never_merge")
+				return
+			}
 			var c dCase
 			if err := json.Unmarshal(ctx.Replay, &c); err != nil {
 				fatal(err)
@@ -420,6 +427,9 @@ func init() {
 			c := c05GenKey(ctx.R)
 			one(&c)
 		}
+		// identities keep their own scope also through obtain / Close / obtain-again cycles racing
+		// report passes and each other (schedule-controlled registry scenarios, direct predicate)
+		regCrossStream(ctx, ctx.N(150, 3000), "equal_identities_share_one_scope_distinct_never_merge")
 		ctx.Note("streams: main (delimiter-free, non-empty keys, sanitizer-fixed inputs), empty-key (F05a witnesses; cases on which the tree deviates from the canonical key are reported as the finding and withheld from the model, which describes the repaired writer), delims (F05b witnesses; the model reproduces the merge)")
 		_ = fmt.Sprint
 	}
